@@ -11,14 +11,13 @@ abbrev Str := List Char
 def isDigit (c : Char) : Bool := '0' ≤ c && c ≤ '9'
 def digitVal (c : Char) : Nat := c.toNat - 48
 
-/-- `%d` of a natural number, most significant digit first. -/
-def showNatAux : Nat → Nat → Str → Str
-  | 0, _, acc => acc
-  | fuel+1, n, acc =>
-    let acc := Char.ofNat (48 + n % 10) :: acc
-    if n < 10 then acc else showNatAux fuel (n / 10) acc
+def digitChar (k : Nat) : Char := Char.ofNat (48 + k)
 
-def showNat (n : Nat) : Str := showNatAux (n + 1) n []
+/-- `%d` of a natural number, most significant digit first. -/
+def showNat (n : Nat) : Str :=
+  if h : n < 10 then [digitChar n] else showNat (n / 10) ++ [digitChar (n % 10)]
+termination_by n
+decreasing_by omega
 
 def showInt (i : Int) : Str :=
   if i < 0 then '-' :: showNat (-i).toNat else showNat i.toNat
